@@ -1,8 +1,63 @@
-"""C15 - server output always obeys the line protocol (DESIGN §5 C15)"""
-import json, vlib, pmcheck
+"""C15 - server output always obeys the line protocol (DESIGN §5 C15).
+   Proof gate: Properties/C15.v (single-client stream theorem against the recogniser Spec/Proto.v).
+   Tie: R-CLIENT (C06.correspond) - the real _client_printf callers against the extracted model, byte for byte.
+   Search on the implementation: whole-daemon histories on pmsim; EVERY client's raw byte stream is given to the EXTRACTED
+   recogniser (Proto.ok_prefix for streams that may have been cut, Proto.ok for clients that were served to the end)."""
+import json, os, re
+import vlib, pmcheck, pmsim
+
+
+def proto_verdicts(model, streams):
+    """streams: list of (tag, bytes) -> {tag: {ok, rest, prefix, terminals}} through the extracted Spec/Proto"""
+    inp = "".join("PROTO %s %s\n" % (t, b.hex() or "-") for t, b in streams)
+    rc, o, e = vlib.sh(["timeout", "-s", "KILL", "300", model], shell=False, inp=inp.encode(), timeout=320)
+    if rc != 0:
+        raise vlib.TieBroken("extracted recogniser failed: " + e[-500:])
+    return {l.split()[1]: dict(x.split("=") for x in l.split()[2:]) for l in o.splitlines() if l.startswith("PROTO ")}
+
+
 def run(ctx, V):
     import C06
-    pmcheck.standard_run(ctx, V, ["alive", "protocol"], extract=["Extract/ExClient.vo", "Extract/ExEnqueue.vo"], n_quick=400)
+    proofs_ok = vlib.proof_gate(ctx, V, extract=["Extract/ExClient.vo", "Extract/ExEnqueue.vo"])
+    exe = pmsim.build(ctx)
+    model = C06.build_model(ctx)
+    n = 360 if ctx.tier == "quick" else 15000
+    styles = ("healthy", "mixed", "faults")
+    scs = [pmcheck.gen_scenario(ctx.rng, style=styles[i % 3]) for i in range(n)]
+    # telemetry echo of hostile device bytes: switch telemetry on for client 0 in every third scenario
+    for i, sc in enumerate(scs):
+        if i % 3 == 1:
+            sc.script[2 * sc.tags["ncli"]:2 * sc.tags["ncli"]] = [("send", 0, b"telemetry\r\n"), ("wait", 0)]
+    V.rule = ("whole-daemon histories on pmsim (unmodified powermand under the virtual OS; generated configurations, 1-3 clients, valid and refused requests, "
+              "device faults incl. garbage bytes echoed through telemetry); monitors: alive, protocol (python), and the EXTRACTED recogniser Spec.Proto on every "
+              "client's raw stream (ok_prefix always; ok + one terminal line per line sent for clients served to the end). non-trivial = a simulated device "
+              "received a command; distinct by (config, script)")
+    sessions = pmcheck.run_batch(ctx, V, exe, scs, ["alive", "protocol"], "c15")
+    streams, meta = [], {}
+    for i, (sc, sess) in enumerate(zip(scs, sessions)):
+        if isinstance(sess, Exception): continue
+        dropped = set(sess.closed_clients)
+        for st in sc.script:
+            if st[0] == "raw":
+                for ev in st[1]:
+                    m = re.match(r"(EOF|RST|FULLCLOSE) c(\d+)", ev)
+                    if m: dropped.add(int(m.group(2)))
+        for k, b in sess.client_out.items():
+            tag = "%d.%d" % (i, k)
+            streams.append((tag, b)); meta[tag] = (sc, sess, k, k in dropped)
+    ver = proto_verdicts(model, streams)
+    for tag, (sc, sess, k, dropped) in meta.items():
+        v = ver.get(tag)
+        if v is None:
+            V.tie_broken("tie", "proto-monitor", "no verdict for stream " + tag); continue
+        V.count("stream:ok=%s,prefix=%s" % (v["ok"], v["prefix"]))
+        w = dict(sc.describe(), client=k, stream=sess.client_out[k].decode("latin-1")[-800:])
+        if v["prefix"] != "true":
+            V.violation("protocol", "client-stream", w, "Spec.Proto.ok_prefix rejects what client %d received" % k)
+        elif not dropped and sess.alive_after_script and not sess.wedged and not sess.overrun and v["ok"] != "true":
+            V.violation("protocol", "client-stream", w, "client %d was served to the end but its stream is not a sequence of whole protocol tokens (Spec.Proto.ok)" % k)
     C06.correspond(ctx, V, n=150 if ctx.tier == "quick" else 3000)
+
+
 def replay(ctx, V, path):
     print(json.dumps(json.load(open(path)), indent=1)[:6000]); return 0
